@@ -317,8 +317,9 @@ def bounds(tier, h):
         return (0, 0) if tier == "quick" else ((0, 1) if nodes <= 2 else (0, 0))
     if tier == "quick":
         return (1, 0)
-    # two threads, thorough: pairs of 3 nodes with PB 1; pairs of 2 nodes with PB 2 and one clock tick
-    return (2, 1) if nodes <= 2 else (1, 0)
+    # two threads, thorough: pairs of 3 nodes with PB 1; pairs of 2 nodes with PB 2 (a clock tick on top of PB 2 multiplies
+    # the ~10^4 schedules of such a pair by its ~120 points)
+    return (2, 0) if nodes <= 2 else (1, 0)
 
 
 def shard(part, shard_i, nshards, tier, seed, deadline):
@@ -331,7 +332,7 @@ def shard(part, shard_i, nshards, tier, seed, deadline):
 
 def run(ctx):
     hs = harnesses(ctx.tier)
-    ctx.bounds = {"tree_nodes": 4 if ctx.tier == "quick" else 5, "two_threads(PB,TB)": (1, 0) if ctx.tier == "quick" else "pairs of 3 nodes (1, 0); pairs of 2 nodes (2, 1)", "single_thread(PB,TB)": "(0, 1) up to 2 nodes, (0, 0) above", "harnesses": len(hs)}
+    ctx.bounds = {"tree_nodes": 4 if ctx.tier == "quick" else 5, "two_threads(PB,TB)": (1, 0) if ctx.tier == "quick" else "pairs of 3 nodes (1, 0); pairs of 2 nodes (2, 0)", "single_thread(PB,TB)": "(0, 1) up to 2 nodes, (0, 0) above", "harnesses": len(hs)}
     ctx.assumptions = ["controlled clock; Condition.wait(timeout) = blocked until notified or clock >= deadline", "preemption at sync operations and line boundaries of the trampoline files"]
     ctx.sharded(shard, nshards=min(len(hs), max(1, ctx.workers) * 8))
     ilvrun.finish_cov(ctx, ctx.total)
